@@ -478,7 +478,12 @@ def run_cachegrind(res):
 
     def one(job):
         f, n, v = job
-        rc, so, se, dt = run(CALLGRIND + [binary, "work", f, str(n), v], timeout=1200)
+        try:
+            rc, so, se, dt = run(CALLGRIND + [binary, "work", f, str(n), v], timeout=600)
+        except subprocess.TimeoutExpired:
+            # a parse of <= 512 KiB that does not finish in ten minutes under callgrind (a linear one
+            # takes well under a second) is counted as 10^12 instructions: the ratio rule below fires
+            return job, 10 ** 12
         m = re.search(r"Collected\s*:\s*(\d+)", se)
         if rc != 0 or not m or int(m.group(1)) == 0:
             raise Machinery("callgrind run failed for %s %d: %s" % (f, n, se[-500:]))
@@ -495,7 +500,7 @@ def run_cachegrind(res):
         d1, d2 = b - a, c - b
         ratio = d2 / max(d1, 1)
         rows.append({"family": f, "variant": v, "sizes": [base, 2 * base, 4 * base], "instructions": [a, b, c], "increment_ratio": round(ratio, 2)})
-        if ratio > 2.5:
+        if ratio > 2.5 or max(a, b, c) >= 10 ** 12:
             path = write_replay("C20-work-%s-%s.json" % (f, v), {"property": "C20", "kind": "work", "family": f, "variant": v, "base": base,
                                                           "instructions": [a, b, c], "what": "instruction count grows super-linearly with the buffer length (increment ratio %.2f > 2.5)" % ratio})
             res.add_violation(path, "family %s (%s): instructions %d/%d/%d" % (f, v, a, b, c))
